@@ -257,8 +257,10 @@ impl World {
                 }
             }
             Some(b) => {
+                // C04 states that a BytesMut region lies inside a single *live* allocation
+                let props: &[&'static str] = if v.kind == 1 { &["C03", "C02", "C04"] } else { &["C03", "C02"] };
                 self.v(
-                    &["C03", "C02"],
+                    props,
                     "view-of-freed-memory",
                     format!(
                         "handle h{} ({}, len {}, origin {:?}) points into block#{} (size {}) which was already freed",
@@ -273,8 +275,9 @@ impl World {
                 false
             }
             None => {
+                let props: &[&'static str] = if v.kind == 1 { &["C02", "C04"] } else { &["C02"] };
                 self.v(
-                    &["C02"],
+                    props,
                     "view-outside-any-allocation",
                     format!(
                         "handle h{} ({}, len {}, capacity {}) points to memory that is neither a live allocation nor the static data it was given",
